@@ -47,8 +47,10 @@ def defs(sc):
     return {"MCScript": script_tla(sc["scripts"]), "MCBounds": to_tla(sc["bounds"])}
 
 
-def harness_scen(sc, via="direct"):
+def harness_scen(sc, via="direct", share=None):
     obj = {"kind": "histogram", "bounds": sc["bounds"], "via": via}
+    if share:
+        obj["share"] = share
     if "shift" in sc:
         obj["shift"] = sc["shift"]       # all values and bounds shifted down: stored sums are negative, reported sums shifted back
     return {"obj": obj, "threads": sc["threads"], "scripts": sc["scripts"], "budget": sc.get("budget", 4000)}
@@ -110,9 +112,9 @@ def judge(ctx, pid, sc, results, label, stats):
         if r.get("nonterm"):
             stats["nonterm"] += 1
             ctx.violation("nonterminating", "a call did not return within the step budget (%s) under schedule %s" % ("deadlock" if r.get("deadlock") else "livelock", r["id"]),
-                          {"scenario": harness_scen(sc, r.get("via", "direct")), "job": {"id": r["id"], "mode": "choices", "choices": r["choices"]}})
+                          {"scenario": harness_scen(sc, r.get("via", "direct"), r.get("share")), "job": {"id": r["id"], "mode": "choices", "choices": r["choices"]}})
         if r.get("panics"):
-            ctx.violation("panic", "library code panicked: %s" % r["panics"], {"scenario": harness_scen(sc, r.get("via", "direct")), "job": {"id": r["id"], "mode": "choices", "choices": r["choices"]}})
+            ctx.violation("panic", "library code panicked: %s" % r["panics"], {"scenario": harness_scen(sc, r.get("via", "direct"), r.get("share")), "job": {"id": r["id"], "mode": "choices", "choices": r["choices"]}})
         if r.get("drift"):
             stats["drift"] += 1
             if len(ctx.drift) < 5:
@@ -123,7 +125,7 @@ def judge(ctx, pid, sc, results, label, stats):
     for i, (h, jid) in enumerate(hs):
         if not ints_only(h):
             ctx.violation("snapshot-not-integral", "a snapshot/read contains a value that no set of the (integer) observations explains: job %s" % jid,
-                          {"scenario": harness_scen(sc, by_id[jid].get("via", "direct")), "job": {"id": jid, "mode": "choices", "choices": by_id[jid]["choices"]}, "history": h})
+                          {"scenario": harness_scen(sc, by_id[jid].get("via", "direct"), by_id[jid].get("share")), "job": {"id": jid, "mode": "choices", "choices": by_id[jid]["choices"]}, "history": h})
         else:
             good.append((h, jid))
     rej = oracle(ctx, "HistCut", "AllCuts", [h for h, _ in good], label)
@@ -131,7 +133,7 @@ def judge(ctx, pid, sc, results, label, stats):
         h, jid = good[i]
         r = by_id[jid]
         ctx.violation("history-rejected", "HistCut rejects the recorded history of job %s (scenario %s): some snapshot is not one consistent, prefix-closed, real-time-respecting cut" % (jid, label),
-                      {"scenario": harness_scen(sc, r.get("via", "direct")), "job": {"id": jid, "mode": "choices", "choices": r["choices"]}, "history": h})
+                      {"scenario": harness_scen(sc, r.get("via", "direct"), r.get("share")), "job": {"id": jid, "mode": "choices", "choices": r["choices"]}, "history": h})
     stats["histories"] += len(good)
     stats["rejected"] += len(rej)
     return good
@@ -176,9 +178,11 @@ def run_scenario(ctx, pid, exe, sc, label, stats, samples, model=True, nrandom=0
     pb = pb if pb is not None else ((2, 300) if ctx.quick else (3, 10000))
     if pb and pb[1]:
         for via in vias:
-            res, info = pb_explore(ctx, exe, harness_scen(sc, via), label + via, pb[0], pb[1], nproc=nproc)
+            # the systematic search shares ONE handle by reference between the threads (the other schedules give each thread a clone)
+            res, info = pb_explore(ctx, exe, harness_scen(sc, via, "ref"), label + via, pb[0], pb[1], nproc=nproc)
             for x in res:
                 x["via"] = via
+                x["share"] = "ref"
             all_results += res
             stats["pb_executions"] = stats.get("pb_executions", 0) + info["executions"]
             stats["pb_complete"] = stats.get("pb_complete", 0) + (1 if info["complete"] else 0)
